@@ -133,7 +133,9 @@ def compute_direct_integration_targets(zone: Zone):
             )
         )
         # Target capital cost and heat transfer area and number of exchanger units based on Balanced CC
-        if zone_config.DO_AREA_TARGETING and len(hot_streams) + len(cold_streams) > 0:
+        if zone_config.DO_AREA_TARGETING and any(
+            abs(s.heat_flow) > tol for s in list(hot_streams) + list(cold_streams)
+        ):
             num_units = get_min_number_hx(
                 pt.col[PT.T.value],
                 pt.col[PT.H_HOT_BAL.value],
